@@ -1,5 +1,7 @@
 import CgtModel.Report
 import CgtModel.Lemmas.Prefix
+import CgtModel.Lemmas.PrepassAppend
+import CgtModel.Props.C02
 /-! # C12 — figures for earlier years do not change when later transactions are added
 
 Statement: once every transaction up to 30 days after a disposal is present, its legs, costs and gain
@@ -16,9 +18,13 @@ from the pool the history left, with no claims carried over. Hence
 * `C12_rejection_comes_from_the_continuation` — if the history alone is accepted and the extended
   ledger is rejected, the error is the one the continuation produces when run from the history's
   closing pool.
-Not proved: that the cost pre-pass leaves the history's offsets unchanged when the continuation has no
-capital return / accumulation (it does: only those events write offsets), and the lift through
-preprocessing; both are exercised by the check on the real code.
+* `C12_offsets_unchanged`, `C12_security_prefix_stable` — the cost pre-pass included: a continuation
+  without capital returns / accumulations leaves every offset of the history's purchases unchanged
+  (only those events write offsets), so for one security's day list the whole run (pre-pass + main
+  pass) of history ++ continuation is the history's run followed by the continuation's, from the
+  history's closing pool.
+Not proved: the lift through preprocessing (that the day list of `l ++ later lines` is the day list of
+`l` followed by that of the later lines); it is exercised by the check on the real code.
 -/
 namespace Cgt.C12
 open Cgt
@@ -69,5 +75,69 @@ example : allFar 30 hist cont := by
   intro d hd
   simp only [hist, List.mem_cons, List.mem_singleton, List.not_mem_nil, or_false] at hd
   rcases hd with rfl | rfl <;> (simp only [farFrom, cont]; decide)
+
+/-! ### with the cost pre-pass -/
+
+theorem farFrom_setOffsets (f : Day → Rat) (w : Int) (d0 : Date) (es : List Day) (h : farFrom w d0 es) :
+    farFrom w d0 (C02.setOffsets f es) := by
+  cases es with
+  | nil => trivial
+  | cons e rest => exact h
+
+theorem allFar_setOffsets (f g : Day → Rat) (w : Int) (ps es : List Day) (h : allFar w ps es) :
+    allFar w (C02.setOffsets f ps) (C02.setOffsets g es) := by
+  intro d hd
+  unfold C02.setOffsets at hd
+  simp only [List.mem_map] at hd
+  obtain ⟨d0, hd0, rfl⟩ := hd
+  exact farFrom_setOffsets g w _ es (h d0 hd0)
+
+/-- a continuation without cost events leaves every cost offset as the history alone gives it -/
+theorem C12_offsets_unchanged (t : String) (ps es : List Day) (hok : daysOk (ps ++ es)) (hne : noEvents es)
+    (lots1 : List Lot) (h1 : prepass t [] ps = .ok lots1) :
+    ∃ lots2, prepass t [] (ps ++ es) = .ok lots2 ∧ ∀ o, offsetFor o lots2 = offsetFor o lots1 := by
+  have hokps : daysOk ps := by
+    clear h1 hne
+    induction ps with
+    | nil => trivial
+    | cons d ps ih => exact ⟨hok.1, ih hok.2⟩
+  have hokes : daysOk es := by
+    clear h1 hne hokps
+    induction ps with
+    | nil => exact hok
+    | cons d ps ih => exact ih hok.2
+  obtain ⟨hinv, _, _⟩ := prepass_props t ps [] lots1 (fun _ hx => by simp at hx) hokps h1
+  obtain ⟨lots2, h2, hk⟩ := prepass_noEvents t es lots1 hinv hokes hne
+  refine ⟨lots2, ?_, fun o => offsets_after_noEvents t es lots1 lots2 hk o⟩
+  rw [prepass_append, h1]; exact h2
+
+/-- **C12 for one security, pre-pass included**: history ++ far-later days without cost events =
+    the history's run, then the later days from the pool it left -/
+theorem C12_security_prefix_stable (t : String) (w : Int) (ps es : List Day) (hok : daysOk (ps ++ es))
+    (hne : noEvents es) (hfar : allFar w ps es) (pool1 : Option Pool) (legs1 : List Leg)
+    (h1 : runTicker t w ps = .ok (pool1, legs1)) :
+    ∃ f : Day → Rat, runTicker t w (ps ++ es) =
+      (match runDays t w pool1 (C02.setOffsets f es) [] with
+       | .error e => .error e
+       | .ok (pool2, legs2) => .ok (pool2, legs1 ++ legs2)) := by
+  unfold runTicker withOffsets at h1
+  split at h1
+  · cases h1
+  · rename_i ds' hw
+    split at hw
+    · cases hw
+    · rename_i lots1 hp1
+      simp only [Except.ok.injEq] at hw
+      obtain ⟨lots2, hp2, hoff⟩ := C12_offsets_unchanged t ps es hok hne lots1 hp1
+      refine ⟨fun d => offsetFor d.ord lots1, ?_⟩
+      unfold runTicker withOffsets
+      rw [hp2]
+      simp only
+      have e : List.map (fun d => { d with offset := offsetFor d.ord lots2 }) (ps ++ es)
+          = C02.setOffsets (fun d => offsetFor d.ord lots1) ps ++ C02.setOffsets (fun d => offsetFor d.ord lots1) es := by
+        simp only [C02.setOffsets, List.map_append, hoff]
+      rw [e, C12_prefix_stable t w _ _ (allFar_setOffsets _ _ w ps es hfar)]
+      have hps : C02.setOffsets (fun d => offsetFor d.ord lots1) ps = ds' := by rw [← hw]; rfl
+      rw [hps, h1]
 
 end Cgt.C12
